@@ -12,6 +12,11 @@ mod ops_float;
 mod ops_serde;
 mod ops_skip;
 
+/// serialisation entry point used by ops_serde.rs (the feature-matrix harness substitutes a slice-based one)
+mod sser {
+    pub fn to_vec<T: serde::Serialize>(v: &T) -> Result<Vec<u8>, ()> { minicbor_serde::to_vec(v).map_err(|_| ()) }
+}
+
 #[global_allocator]
 static GLOBAL: ops_seq::Counting = ops_seq::Counting;
 
